@@ -741,12 +741,11 @@ def run_programs(chk, tier, rng):
             chk.add_mismatch("prog-defect", "prog:%s\n%s" % (pid, src), "%s / %s" % js, "%s / %s" % nat, signature=sig)
     # nondeterministic select: the outcome must be one the model enumerates over all Math.random resolutions
     allowed = set()
-    for p1 in range(12):
-        for p2 in range(12):
-            sc = ["go", "mk_1", "mk_1", "send_1_1", "send_2_2", "sel_%d_r1,r2" % p1, "sel_%d_r1,r2" % p2]
-            o = run_model([sc])[0]
-            names = {"0": "a", "1": "b"}
-            allowed.add(tuple("%s %s" % (names[x.split(" ")[0].split(":")[1]], x.split(" ")[0].split(":")[2]) for x in o[-2:]))
+    names = {"0": "a", "1": "b"}
+    scs = [["go", "mk_1", "mk_1", "send_1_1", "send_2_2", "sel_%d_r1,r2" % p1, "sel_%d_r1,r2" % p2]
+           for p1 in range(12) for p2 in range(12)]
+    for o in run_model(scs):
+        allowed.add(tuple("%s %s" % (names[x.split(" ")[0].split(":")[1]], x.split(" ")[0].split(":")[2]) for x in o[-2:]))
     js = progs.observe_js(res["nondet"]["runs"]["plain"])
     nat = progs.observe_native(res["nondet"]["runs"]["native"]) if thorough else (list(sorted(allowed)[0]), "exit0")
     chk.add_case("prog-nondet", "nondet-select", kindkey="prog:nondet")
